@@ -47,6 +47,14 @@ def _in_import(frame):
     return False
 
 
+def _depth(frame):
+    n = 0
+    while frame is not None:
+        n += 1
+        frame = frame.f_back
+    return n
+
+
 def _midx(name):
     return colordocs.COLORS[name][0] if name in colordocs.COLORS else -1
 
@@ -287,11 +295,14 @@ def run_preempt(docA, docB, ks, docC=None, warm=False):
         shutil.rmtree(tmp, ignore_errors=True)
 
 
-def run_nested(docA, docB, kA, kB):
+def run_nested(docA, docB, kA, kB, step=False):
     """Two preemptions: thread A stops at its kA-th library call; thread B starts and stops at its kB-th library call;
     A runs to completion; then B runs to completion.  (A window that one thread opens and closes inside a single
     call sequence - remove an entry, work, put it back - is only visible to another thread that runs while the first
-    is parked inside it.)"""
+    is parked inside it.)
+    step=True: three switches - after B is parked, A runs until the function in which it was interrupted has returned and
+    is parked again at its next library call, B runs to completion, then A does
+    (A: ..kA | B: ..kB | A: steps out | B: rest | A: rest)."""
     tmp = tempfile.mkdtemp(prefix="rtflite-verif-sched-")
     names = {"A": docA, "B": docB}
     for t in names:
@@ -337,8 +348,18 @@ def run_nested(docA, docB, kA, kB):
 
         def tracerA(frame, event, arg):
             if event == "call" and _is_lib(frame.f_code.co_filename):
+                if started["v"] and step and not started.get("stepped"):
+                    # "step out": A runs until the function in which it was interrupted has returned (the first library
+                    # call made from a shallower frame), is parked again there, and B finishes first
+                    if _depth(frame) < started["depth"]:
+                        started["stepped"] = True
+                        if not _in_import(frame):
+                            b_resume.set()
+                            b_done.wait(120)
+                    return None
                 if reached("A", frame, kA) and not started["v"]:
                     started["v"] = True
+                    started["depth"] = _depth(frame)
                     thB.start()
                     b_paused.wait(120)       # B is parked at its kB-th call (or has finished)
             return None
